@@ -188,12 +188,13 @@ CLAIMED = {
         design="§7 C09", technique="Lean 4 proof (element-level round trips, generic list lemma) + staged write/load correspondence"),
     "C15": dict(
         text="PARTIAL. In the model toXml is a total function of the definition (no clock, no iteration-order freedom): "
-             "write_is_function. Proved: every element written for criteria of any nesting depth and for parameters lies in the "
-             "definition's XTCE namespace (comparison/condition/anded/ored/criterion/parameter_in_namespace, mutual structural "
-             "induction). The fix-point G2 = G3 and byte-level determinism are decided by the correspondence: the library writes "
+             "write_is_function. Proved: document_in_namespace - every element of to_xml_tree() of any definition lies in the "
+             "definition's XTCE namespace (or in none when it has none), through criteria of any nesting depth, calibrators, "
+             "context calibrators, discrete lookups, all three kinds of encoding, parameter types (incl. time and enumerated "
+             "types), parameters and containers (mutual structural induction; mapM lemma). The fix-point G2 = G3 and byte-level determinism are decided by the correspondence: the library writes "
              "every definition twice with a fixed header date (bytes compared), G2 and G3 are compared byte for byte and as "
              "trees against the model's, every element of G1 is checked to lie in the namespace, and a structural snapshot of the "
-             "definition is compared before and after writing.",
+             "definition is compared before and after writing - also undated, and through write_xml with a str and a Path.",
         design="§7 C15", technique="Lean 4 proof (structural induction over writers) + staged write/load correspondence"),
 }
 
